@@ -488,6 +488,8 @@ def run_check(prop, tier):
         lines.append("VIOLATION property=%s replay=%s" % (prop, replay))
         lines.append("  rule=%s count=%d detail=%s" % (v["rule"], len(items), v["detail"][:600]))
         exit_code = 1
+    for k in run_known_replays(known, prop, built):
+        known_hits.setdefault(k["id"], (k, -1, None))
     for kid, (k, seed, v) in known_hits.items():
         lines.append("KNOWN-FINDING: property=%s %s" % (prop, k["what"]))
     if infra_msgs:
@@ -579,6 +581,43 @@ def replay(path):
     sys.exit(0)
 
 
+def mkreplay(prop, module, scenario, seed, rule, outpath, variant=""):
+    """Runs one seed, minimises the plan for (prop, rule) and stores it as a committed replay (used for known findings)."""
+    binary, _ = build_module(module)
+    os.makedirs(TMP, exist_ok=True)
+    pf = os.path.join(TMP, "mk-%d.jsonl" % os.getpid())
+    if os.path.exists(pf):
+        os.remove(pf)
+    run_child(binary, scenario, seed, 1, "quick", 2, pf, variant, tape=True, timeout=300)
+    outs, _ = parse_out(pf)
+    o = outs.get(seed)
+    if not o or not any(v["prop"] == prop and v["rule"] == rule for v in o.get("violations") or []):
+        print("seed does not show %s/%s" % (prop, rule))
+        sys.exit(2)
+    plan, tries = minimise(binary, scenario, seed, o["plan"], prop, rule, budget=300)
+    out2, crash2 = run_plan(binary, scenario, seed, plan)
+    v = [v for v in out2["violations"] if v["prop"] == prop and v["rule"] == rule][0]
+    json.dump({"property": prop, "scenario": scenario, "module": module, "seed": seed, "plan": plan, "violation": v,
+               "log_hash": out2.get("log_hash", ""), "minimised_from": {"tries": tries}}, open(outpath, "w"), indent=1)
+    print("wrote", outpath, "after", tries, "minimisation runs:", v["detail"][:300])
+
+
+def run_known_replays(known, prop, built):
+    """Directed reproductions of known findings: each listed replay is executed on every run."""
+    hits = []
+    for k in known:
+        if k.get("status") != "known" or k.get("property") != prop or not k.get("replay"):
+            continue
+        path = os.path.join(VERIF, k["replay"])
+        r = json.load(open(path))
+        if r["module"] not in built:
+            built[r["module"]], _ = build_module(r["module"])
+        out, crash = run_plan(built[r["module"]], r["scenario"], r["seed"], r["plan"])
+        if same_violation(out, crash, prop, r["violation"]["rule"]):
+            hits.append(k)
+    return hits
+
+
 def selftest_determinism(scens):
     todo = []
     for prop, chk in CHECKS.items():
@@ -616,6 +655,9 @@ def main():
         replay(a[1])
     elif a[0] == "selftest" and a[1] == "determinism":
         selftest_determinism(a[2:])
+    elif a[0] == "mkreplay":
+        # mkreplay <prop> <module> <scenario> <seed> <rule> <outpath> [variant]
+        mkreplay(a[1], a[2], a[3], int(a[4]), a[5], a[6], a[7] if len(a) > 7 else "")
     elif a[0] == "build":
         for m in (a[1:] or list(MODULES)):
             out, dt = build_module(m)
